@@ -6,6 +6,7 @@
 #include "../engine/runner.hpp"
 #include "../gen/json_text.hpp"
 #include "../gen/values.hpp"
+#include "../gen/history_run.hpp"
 #include "../lib/build.hpp"
 #include "../lib/observe.hpp"
 #include "../ref/json_ref.hpp"
@@ -322,6 +323,25 @@ static void run_case(cs::Src& s, cs::Ctx& ctx) {
       return;
     }
     ctx.label("doc-from-msgpack");
+  } else if (how == 3) {
+    // a document reached through a model-checked API history (free slots, shared strings, holes)
+    hist::Options ho;
+    ho.ndocs = 1;
+    ho.allow_alias_ops = false;
+    ho.doc_level_ops = false;
+    hist::Runner r(s, ctx, ho);
+    r.init();
+    size_t nops = 5 + (size_t)s.below(25);
+    for (size_t i = 0; i < nops; i++) r.step();
+    v = r.m.docs[0].root;
+    ctx.current_rendering = "history:" + r.log + "\nvalue: " + ref::render(v);
+    bool truncated_h = false;
+    check_document(ctx, s, *r.worlds[0]->docs[0], truncated_h);
+    r.finish();
+    ctx.label("doc-from-history");
+    if (v.nodes() >= 2 && truncated_h) ctx.nontrivial_str(ref::render(v, 3000));
+    else ctx.trivial++;
+    return;
   } else {
     if (!lib::build(doc.to<JsonVariant>(), v, s, arena)) ctx.fail("build", "building the document failed");
     ctx.label("doc-from-api");
